@@ -17,7 +17,7 @@ CHECKS["C12"] = dict(
           "the slots of some tags are half migrated (0..8 of the tag's keys already on the importing node); 1..40 sequential GET / SET / EXISTS / "
           "APPEND on these keys. Slot ownership never changes during a case. Oracle per command (node logs): the first node the command "
           "reaches is the owner of the tag's slot (independent CRC16 + tag rule), no node it reaches answers MOVED (ASK from a migrating owner "
-          "is legitimate), the reply equals a single server's; MOVED counter unchanged over the case. Non-trivial: a slot is half migrated."),
+          "is legitimate), the reply equals a single server's; MOVED counter unchanged over the case; the commands include EVAL in four spellings (routed by KEYS[1]). Non-trivial: a slot is half migrated."),
     assumptions=["the reference CRC is pinned by the standard check value 0x31C3 for '123456789' (slot 12739)",
                  "end-to-end routing of the same key families is checked by C03's routing oracle"],
     parts=[
@@ -83,7 +83,7 @@ CHECKS["C19"] = dict(
           "accessed names. part concurrent: goroutines Incr/Latch one counter; latched sum <= accesses and == accesses when capacity >= "
           "distinct keys. part e2e: a real proxy (collect interval hooked to 15 ms) in front of 1..3 simulated masters, 1..4 rounds of 1..300 "
           "GETs over 1..120 distinct keys, HOTKEY after each round: parseable, <= 50 lines, unique names that were accessed, non-increasing "
-          "counters. Non-trivial: an eviction happened or a frequency node was created/removed inside the list (counter); >=2 "
+          "counters. The collector part also draws capacities 127..255 (the largest the type allows) and floods of up to 2 x capacity + 10 distinct keys on one backend's counter. Non-trivial: an eviction happened or a frequency node was created/removed inside the list (counter); >=2 "
           "collections and the report reached capacity (collector); every concurrent case. Distinct by canonical JSON of the history."),
     assumptions=["capacity 0 is excluded: no caller can create it (the collector is built with 50)",
                  "report order is checked at quiescent points only (a HOTKEY read overlapping collect() is a schedule the harness does not own)",
@@ -110,7 +110,7 @@ CHECKS["C15"] = dict(
           "member or on the newest retired object, four replace-all lists): 5.1 million histories, same oracle after every step. part hysteresis: a real hc.Monitor with a scripted checker driven round by round "
           "(thresholds 0..5, generated result matrix, remove+re-add of a host between rounds): a flip needs >= threshold (>=1) consecutive "
           "contrary results and must happen by threshold+1. part concurrent: 2..8 goroutines mutate disjoint address ranges while readers "
-          "assert sorted / single-tier / ever-member snapshots; the quiescent view is consistent. Non-trivial: history has a type change "
+          "assert sorted / single-tier / ever-member snapshots; the quiescent view is consistent. In a third of the hysteresis cases the health-check configuration is replaced 1..3 times at run time (ResetHealthCheck: new thresholds, same or another interval); later flips follow the new thresholds. Non-trivial: history has a type change "
           "of an address, a mark on a retired object or a removal with the other type (set); a contrary run was interrupted (hysteresis); "
           "all concurrent cases. part markrace: a health mark (MarkHostHealthy on an unhealthy member / MarkHostUnhealthy) released at the same "
           "instant as Remove(fresh object) / ReplaceAll / Add(replacing object) of the same address, 40000 (thorough 200000) pairs per "
@@ -224,7 +224,9 @@ CHECKS["C08"] = dict(
           "executed 40 times. part converge-streams: after a sequential prefix the configuration updates, the endpoint updates (services a, b) and "
           "dependency changes (services c, d) are delivered by three goroutines at once, as the three discovery streams do in production, while a "
           "forwarder that waits 0..1000 us per event lets the store's 32-slot event channel fill up so that handlers block in their sends; the streams touch "
-          "disjoint parts of the state, so the fold model does not depend on their interleaving; same oracle at quiescence, each history executed 6 times. part grpc (package disc, shared with C16): the real dynamic source (config.New with a DynamicSourceConfig: grpc.Dial, the three real discovery clients, their retry loops and the dependency hook of config/dynamic.go + config/discovery.go), the real store and the real controller against an in-process gRPC discovery server; rapid-generated histories (2..16 steps after 0..3 complete services) of dependency pushes (also bursts of 10..24 names, remove and re-add back to back), configuration and endpoint pushes, killing the dependency / config / endpoint stream, stopping and restarting the server on its port, pauses 1..1300 ms, and settle points. The server answers every subscription with the service's full state (endpoints: current list as added, removed ones - or, in half of the cases, every endpoint it ever had - as removed). Oracle at every settle point and at the end: within 45 s every scope has a live stream whose folded requests (a name in both lists of one request accepted either way) equal the dependency set, every server message is taken, and within 15 s more the store's view equals the server's truth and there is exactly one running processor for every dependency with a valid configuration and a non-empty endpoint list, with that configuration and host set; it stays so after a quiet period. Non-trivial: an endpoint update with both lists hit a running service, or a dependency was removed and re-added, "
+          "disjoint parts of the state, so the fold model does not depend on their interleaving; same oracle at quiescence, each history executed 6 times. Endpoints carry generated states "
+          "(UP / DOWN / UNKNOWN: kept whatever they say), and the invalid first configuration is either one that fails validation or one that passes it but cannot be built (a protocol without processor); "
+          "part unbuildable: three directed histories of the latter. part grpc (package disc, shared with C16): the real dynamic source (config.New with a DynamicSourceConfig: grpc.Dial, the three real discovery clients, their retry loops and the dependency hook of config/dynamic.go + config/discovery.go), the real store and the real controller against an in-process gRPC discovery server; rapid-generated histories (2..16 steps after 0..3 complete services) of dependency pushes (also bursts of 10..24 names, remove and re-add back to back), configuration and endpoint pushes, killing the dependency / config / endpoint stream, stopping and restarting the server on its port, pauses 1..1300 ms, and settle points. The server answers every subscription with the service's full state (endpoints: current list as added, removed ones - or, in half of the cases, every endpoint it ever had - as removed). Oracle at every settle point and at the end: within 45 s every scope has a live stream whose folded requests (a name in both lists of one request accepted either way) equal the dependency set, every server message is taken, and within 15 s more the store's view equals the server's truth and there is exactly one running processor for every dependency with a valid configuration and a non-empty endpoint list, with that configuration and host set; it stays so after a quiet period. Non-trivial: an endpoint update with both lists hit a running service, or a dependency was removed and re-added, "
           "or the controller lagged >= 2 events; grpc: a stream or the server failed, or one push changed more than 16 dependencies. Distinct by canonical JSON of the history."),
     assumptions=["invalid configurations are generated only before a service's first valid one (what should happen to a running processor on an invalid update is not stated)",
                  "a service that has only ever received removal-only endpoint updates is accepted with or without a processor (ambiguous in the statement)"],
@@ -308,7 +310,9 @@ CHECKS["C01"] = dict(
           "1..5000 bytes, optionally all keys of a connection on one node, node reply delay / slow backend writer, and clients that start "
           "reading only after 0..400 ms (replies back up in the proxy); same oracle. part widepipe: 1..4 connections each writing in one go an MSET of its 8..512 keys (2..6 nodes), "
           "2..25 rounds of EXISTS / GET / MGET / TOUCH over all of them, DEL, EXISTS and PING: many wide split requests of several connections in flight at once; every reply must be "
-          "exactly the sum / the array in argument order / the value of its own request. Non-trivial: >= 2 nodes and the node log shows a "
+          "exactly the sum / the array in argument order / the value of its own request. part partial: a client that awaits reply k before it completes request k+1: every write carries "
+          "the rest of request k together with the first 1..1000 bytes of request k+1, then reply k must arrive (10 s) although the next request is incomplete. The pipeline part also sends the "
+          "commands the proxy answers itself (PING, SELECT, INFO, TIME, HOTKEY) with arguments that contain line ends and RESP-looking text: one reply each, whatever it says. Non-trivial: >= 2 nodes and the node log shows a "
           "later-arrived command of one node answered before an earlier one of another. Distinct by canonical JSON."),
     assumptions=["a missing reply is judged by a deadline (20 s; 150 s in the deep part, whose cases are bounded to a few seconds of backend work)"],
     parts=[
@@ -335,7 +339,9 @@ CHECKS["C07"] = dict(
           "refreshes must happen within 10 s of redirected traffic and a sweep over up to 40 moved slots then causes 0 new MOVED/ASK; "
           "after a fail-over writes for the promoted replica's slots must succeed within 10 s. Half of the cases run under the read strategy REPLICA or BOTH "
           "(0..2 replicas per master); op reparent: a replica is re-pointed to another master (every master keeps its address and slots): two successful "
-          "refreshes within 10 s, then 60 reads of keys of both masters cause 0 MOVED/ASK and answer correctly. Non-trivial: a fault was followed by "
+          "refreshes within 10 s, then 60 reads of keys of both masters cause 0 MOVED/ASK and answer correctly. A third of the cases run the periodic refresh at its production rate (2 min: never during a case), so that "
+          "only refreshes triggered by a redirection or by a failed connect can teach the proxy a new layout (convergence = a sweep without redirections); in a quarter of the cases 1..2 live masters are reported as "
+          "master,fail? (PFAIL) by the other nodes. Non-trivial: a fault was followed by "
           "traffic to the same address, or a layout change moved slots. Distinct by canonical JSON of the history."),
     assumptions=["the periodic slot refresh runs every 50 ms and its minimum spacing is 5 ms in the harness (2 min / 5 s in production): recovery after a fail-over without any redirection is bounded by that period",
                  "connect time-outs against black-holed addresses are not generated (refused connects and resets are)"],
@@ -401,7 +407,8 @@ CHECKS["C04"] = dict(
           "(refreshes spaced 5 s apart, table loaded moments ago; a case in which the refresh counter moved all the same is discarded): 1..3 connections each write 2..200 APPENDs on one key of "
           "that slot in one go; the whole burst is redirected command by command, in two thirds of the cases to a node the proxy has no connection to yet; reply i must be :i. part failover: "
           "2..4 masters with 1..2 replicas, the periodic refresh at its production rate (never during a case): a master dies (optionally with 1..40 requests in flight, with or without warm connections, any read strategy) "
-          "and its replica is promoted; requests for the promoted node's slots, retried every 5 ms, must succeed within 10 s and stay served. Non-trivial: a node issued MOVED/ASK for a client command while a slot was "
+          "and its replica is promoted; requests for the promoted node's slots, retried every 5 ms, must succeed within 10 s and stay served. In a quarter of the migrations of part migration a new master "
+          "joins first (it owns no slot and is not a configured host) and the slot is migrated to it. Non-trivial: a node issued MOVED/ASK for a client command while a slot was "
           "half-migrated, or a fail-over happened. Distinct by canonical JSON of the history."),
     assumptions=["the periodic refresh runs every 50 ms in the harness (2 min in production); recovery after a fail-over is bounded by it",
                  "each pipelined burst touches a key at most once: same-key pipelines across a table refresh are the recorded known finding and are excluded by construction (decided separately by the overtake part)",
@@ -429,7 +436,7 @@ CHECKS["C14"] = dict(
           "an error and no backend logs an arrival; PING/QUIT/SELECT/INFO/TIME/HOTKEY are answered with no arrival; every arrival of a "
           "forwarded command is at the master owning ref.Slot(key) or one of its replicas; a command Redis flags as write (and EVAL) "
           "arrives only at that master under every strategy (an arrival at a replica that answers MOVED counts); a read-only command "
-          "arrives at a replica only under REPLICA/BOTH. Non-trivial: a real Redis command outside the supported set, or a forwarded "
+          "arrives at a replica only under REPLICA/BOTH. Names are also sent in spellings that Unicode case folding maps onto supported names (U+212A for k, U+0130 for i): such a name is not a supported name. Non-trivial: a real Redis command outside the supported set, or a forwarded "
           "command on a layout with replicas under REPLICA/BOTH. Distinct by canonical JSON (names part: by construction)."),
     assumptions=["the supported set is frozen in ref/commands.go from the proxy's tables at the pinned commit and docs/src/arch/protocol/redis/redis.md",
                  "a read-only command kept on the master under REPLICA/BOTH is allowed (the statement only restricts what may go to replicas)"],
@@ -452,7 +459,7 @@ CHECKS["C18"] = dict(
           "through a real proxy. Oracle: cursor 0 is reached within pages+nodes+1 calls; returned keys == stored keys as sets; every "
           "node's log shows exactly its chain 0,c1,... once and in order with MATCH/COUNT unchanged; a cursor past the last node yields "
           "[\"0\", []] twice identically; zero nodes (a service that never had a host, or whose hosts are all removed after the "
-          "iteration): the cursors 0, 5, 2^48, 3*2^48+77, 32767*2^48 each yield the terminating reply. Non-trivial: node index > 0 with a node cursor >= 2^32 (cursor); >= 2 nodes and a node with >= 2 "
+          "iteration): the cursors 0, 5, 2^48, 3*2^48+77, 32767*2^48 each yield the terminating reply. MATCH patterns also look like option names, numbers, cursors, blanks and CR LF; a quarter of the services have 1..2 Backup hosts (replicas without keys of their own) next to the main ones. Non-trivial: node index > 0 with a node cursor >= 2^32 (cursor); >= 2 nodes and a node with >= 2 "
           "pages (iteration). Distinct by canonical JSON."),
     assumptions=["client cursors are read as int64, so node indices >= 32768 cannot be fed back as decimal text (far beyond any real node count); they are only checked at the gen/parse level",
                  "SCAN iterates the service's hosts sorted by address; the seed hosts are the masters"],
@@ -544,7 +551,10 @@ CHECKS["C06"] = dict(
           "intervals + 60 ms to converge: every relayed connection reaches a backend that is a member, up, and in the preferred tier "
           "(backup only when no main host is up); with no usable host the client connection is closed, with a usable host none is "
           "refused; round robin over n unchanged hosts gives each exactly k of n*k; established connections to a removed host are closed "
-          "within 5 s. Non-trivial: >1 goroutine and >1 host (roundrobin); >= 2 hosts (pick); a removal or health flip while a connection "
+          "within 5 s. Further ops of part e2e (fifth session): blip (a member's backend is unreachable for a moment, shorter than the health checker needs to notice, while connections arrive), "
+          "slowremove (the member's address is black-holed, connections arrive and some are picked for it, the host is removed, the backend accepts again: a connection that ends up relayed to the removed host must be closed), "
+          "config (OnSvcConfigUpdate at run time: another policy, other health-check thresholds, or no health check at all - then every member counts as healthy); after every removal the established connections to the "
+          "OTHER hosts must still be open; the health state is awaited by polling the health flag of the host objects handed to the processor. Non-trivial: >1 goroutine and >1 host (roundrobin); >= 2 hosts (pick); a removal or health flip while a connection "
           "is established (e2e). Distinct by canonical JSON."),
     assumptions=["the usable set is judged only after the health-check detection window has passed since the last flip",
                  "hosts are never added twice for one address (the config store filters that)"],
@@ -578,7 +588,9 @@ CHECKS["C09"] = dict(
           "pending while Stop sweeps the connections); in two thirds of the cases a host update is delivered right before Stop - the node that answered the redirection "
           "is removed (OnSvcHostRemove), or all hosts are replaced by the new node / by an equal list (OnSvcAllHostReplace) - from the same goroutine as Stop, which "
           "is called 0..20 ms after the update returned, as the controller's event loop does (if the update has not returned after 10 s Stop is called all the same, and only a Stop that does not return either is a verdict). Oracle: Stop returns within 10 s, every client connection is closed, no backend "
-          "connection (also none that completes after Stop) and no service goroutine remains. Non-trivial: the stop is placed before the bind completed, or with >= 1 connection open, or with a non-responsive backend; "
+          "connection (also none that completes after Stop) and no service goroutine remains. part removeall: 2..6 masters, 1..4 clients keeping 1..30 requests in flight for keys of every node; one update removes 1..all hosts "
+          "(OnSvcHostRemove, or OnSvcAllHostReplace with the rest) after 1..20 ms of traffic, Stop follows 0..20 ms after it returned, from the same goroutine: same oracle. The stop part also draws 32..400 requests in "
+          "flight per connection (more than a session queue holds) and, rarely, 64..90 connections x 40 (more than both queues of a backend connection hold). Non-trivial: the stop is placed before the bind completed, or with >= 1 connection open, or with a non-responsive backend; "
           "limit: more simultaneous attempts than L, or a drain. Distinct by canonical JSON."),
     assumptions=["'not served' after Stop means connect refused or the connection closed without data (the port may be rebound by others)",
                  "process-wide singletons (the shared TCP checker loop) are part of the goroutine baseline"],
@@ -608,7 +620,7 @@ CHECKS["C20"] = dict(
           "instant (FIN/RST mixed; when nothing else is open this is a quiescent point inside the history and the equations are checked there) or kept until the end, where everything open ends together "
           "or is open at Stop. part churn: a Redis service on an in-memory listener (package memnet through the hook VerifSetListenFunc), 1..400 rounds of 1..64 connections that send one "
           "PING each and whose peers then vanish at exactly the same instant (one channel close wakes every reader; optionally in two groups 0..40 us apart, optionally the last round ended by Stop, "
-          "optionally a connection limit of 1/3/8): after every round the service is quiescent: cx_total == cx_destroy_total, cx_active == 0, rq_total == success + failure, and cx_restricted equals exactly the number of "
+          "optionally a connection limit of 1/3/8; op replace: the endpoint set of a Redis service is replaced by an equal list while backend connections are open; the upstream connection equations are checked for both kinds): after every round the service is quiescent: cx_total == cx_destroy_total, cx_active == 0, rq_total == success + failure, and cx_restricted equals exactly the number of "
           "connections the service closed without serving; never more than the limit served at once. Non-trivial: "
           "the history includes a redirection, a backend failure, a limit rejection, or a Stop with >= 1 open connection. Distinct by "
           "canonical JSON."),
